@@ -63,13 +63,13 @@ type Container struct {
 	// C14 / C17
 	IP       string
 	Mappings []Mapping
-	Chains   map[string]bool // KUBE-HP chains that appeared while its ADD requests ran
-	Baseline map[string]int  // NAT lines before its first ADD
 	UpProc   int             // daemon incarnation in which its ports were (re)opened
 	DelOK    bool
+	LateDels  int  // DELs sent after it stopped being the pod's current sandbox
 	Abandoned bool // kubelet will never send DEL (C17)
 	DelTries int
 	lastIP   string
+	resynced bool // a daemon start re-installed its mappings from the API server after it had died
 }
 
 // Request is one CNI request in flight or finished.
@@ -91,6 +91,7 @@ type Request struct {
 	before  []string
 	inUse   bool
 	fault   bool
+	overlap bool // another request of the same pod was in flight while this one ran
 	opened  []string
 	Done    bool
 	Code    int
@@ -110,6 +111,7 @@ type Profile struct {
 	RealGCRun  bool // start the collectors with the real Run() (periodic loops) before the start-time synchronisation, as Galaxy.Start does
 	States     bool // container states change (without GC rounds of the world's own)
 	Hostile    bool // C18: hostile requests, annotations, configuration texts and state files
+	Overlap    bool // the teardown of an old sandbox (kubelet GC / PLEG cleanup) may overlap the ADD of the pod's replacement sandbox, and may come late
 }
 
 func profileFor(prop string) Profile {
@@ -117,16 +119,16 @@ func profileFor(prop string) Profile {
 	case "C12":
 		return Profile{Ops: [2]int{4, 26}, Concurrent: true, Crash: true, FS: true, API: true, SetupIPT: true}
 	case "C14":
-		return Profile{Ops: [2]int{4, 22}, Stop: true, FS: true, IPT: true, NetInUse: true, Ports: true, SetupIPT: true}
+		return Profile{Ops: [2]int{4, 22}, Stop: true, FS: true, IPT: true, NetInUse: true, Ports: true, SetupIPT: true, Overlap: true}
 	case "C17":
 		// the quantifier of C17 is inputs x fault sequences, not schedules: operations (requests, GC rounds, state
 		// changes) do not overlap; the two collectors of a round still interleave with each other
-		return Profile{Ops: [2]int{6, 28}, Runtime: true, GC: true, Ports: true, SetupIPT: true}
+		return Profile{Ops: [2]int{6, 28}, Runtime: true, GC: true, Ports: true, SetupIPT: true, FS: true, Crash: true}
 	case "C19":
 		// maximal concurrency on one shared instance: concurrent requests of several containers through the real
 		// handler, the real GC loops and the real periodic EnsureBasicRule loop ticking while requests are in flight,
 		// pod store updates; no crash, no injected environment faults (scripted plugin failures exercise rollback)
-		return Profile{Ops: [2]int{10, 34}, Concurrent: true, Ports: true, SetupIPT: true, RealGCRun: true, States: true}
+		return Profile{Ops: [2]int{10, 34}, Concurrent: true, Ports: true, SetupIPT: true, RealGCRun: true, States: true, Overlap: true}
 	case "C18":
 		return Profile{Ops: [2]int{6, 24}, Concurrent: false, Ports: true, SetupIPT: true, Hostile: true, States: true, RealGCRun: true}
 	}
@@ -192,6 +194,8 @@ type World struct {
 	finalStage int
 
 	// C14
+	podChains   map[int]map[string]bool // pod idx -> KUBE-HP chains that appeared while its ADD requests ran
+	podBase     map[int]map[string]int  // pod idx -> NAT lines before its first ADD
 	baseNAT     []string // NAT lines after the first successful start
 	preStart    []string
 	syncOK      int
@@ -223,7 +227,7 @@ func (w *World) armed(p string) bool { return w.prop == p }
 func NewWorld(s *core.Sim, prop string, cfg *Config, solo *SoloSpec) *World {
 	w := &World{S: s, C: s.C, prop: prop, prof: profileFor(prop), solo: solo, byID: map[string]*Container{}, cur: map[int]*Container{},
 		made: map[int]int{}, reqs: map[string]*Request{}, attempts: map[string]int{}, leftovers: map[string]*Leftover{},
-		gcBusy: map[string]*core.Task{}, gcState: map[*core.Task]*gcTaskState{}, halfWritten: map[string]bool{}, rawBusy: map[string]*core.Task{}}
+		gcBusy: map[string]*core.Task{}, gcState: map[*core.Task]*gcTaskState{}, halfWritten: map[string]bool{}, rawBusy: map[string]*core.Task{}, podChains: map[int]map[string]bool{}, podBase: map[int]map[string]int{}}
 	c := w.C
 	if cfg == nil {
 		cfg = genConfig(c, prop)
@@ -241,6 +245,7 @@ func NewWorld(s *core.Sim, prop string, cfg *Config, solo *SoloSpec) *World {
 	w.FS.FaultHook = w.fsFault
 	w.FS.OnMutate = w.onFSMutate
 	w.Net = simnet.NewTable(s, cfg.EphLo, cfg.EphHi)
+	w.Net.OnClose = w.onSockClose
 	w.Kern = NewKernel()
 	if cfg.PriorNAT != "" {
 		w.Kern.LoadText(cfg.PriorNAT)
@@ -465,6 +470,11 @@ func (w *World) fsFault(t *core.Task, op, path string, size int) simos.Fault {
 		return f
 	}
 	if op == "fs.stat" || op == "fs.chmod" {
+		return f
+	}
+	if w.armed("C17") && (t.Tag == "gc" || !strings.HasPrefix(path, gcDirs[2])) {
+		// C17 injects file faults only into the daemon's own writes of port files (the damaged file is then an
+		// input of the collectors); the collectors' file operations are not faulted
 		return f
 	}
 	if !w.C.Prob(w.fsRate, 1000) {
